@@ -53,7 +53,7 @@ func NewSession(id int) *Session {
 
 // Exp kinds for nested expectations
 const (
-	EExec  ExpKind = 100 // array whose elements are matched by Sub
+	EExec   ExpKind = 100 // array whose elements are matched by Sub
 	EEither ExpKind = 101 // any of Sub
 )
 
@@ -329,11 +329,17 @@ func (s *Server) execOne(all []*Session, se *Session, argv []string, tm Time, in
 		if len(argv) > 2 {
 			return Any("FLUSHDB options")
 		}
+		if len(argv) == 2 && up(argv[1]) != "ASYNC" && up(argv[1]) != "SYNC" {
+			return ErrE("ERR")
+		}
 		s.flush(all, se.DB)
 		return OK()
 	case "FLUSHALL":
 		if len(argv) > 2 {
 			return Any("FLUSHALL options")
+		}
+		if len(argv) == 2 && up(argv[1]) != "ASYNC" && up(argv[1]) != "SYNC" {
+			return ErrE("ERR")
 		}
 		for i := range s.DBs {
 			s.flush(all, i)
